@@ -33,7 +33,9 @@ CFG = dict(
              "Go driver harness/C33 (overlay build, tag verif; shim felix/bpf/proxy/zz_verif_c33.go calls Syncer.newConsistentHash)",
              "the table a CPU of the other byte order would produce is predicted by the model with the byte-order identifier found in the source "
              "(encoding/binary semantics of LittleEndian/BigEndian/NativeEndian as documented)"],
-    assumptions=["Go int is 64 bit (amd64/arm64/ppc64le/s390x): no wrap-around in (offset + j*skip)",
+    assumptions=["Go int is 64 bit (amd64/arm64/ppc64le/s390x); c33_go_int64_exact: with a 64-bit two's-complement int and truncated % the Go "
+                 "expressions equal the model's for every table size < 2^31 (general bound m*m <= 2^(bits-1), 2^32 <= 2^(bits-1)); "
+                 "c33_go_int32_refuted: a 32-bit int is not enough",
                  "table size >= 2 (NextPrimeUint16 never returns less)",
                  "hash functions enter the theorems as arbitrary functions bytes -> bytes; the correspondence uses FNV-1 32 as configured"],
 )
@@ -180,7 +182,7 @@ def run(ctx):
             proof_broken = (proof_broken or "") + "\ngenerated model Gen.v does not compile: " + glog[-2000:]
         else:
             ps = vlib.coq_props(ctx, props_file=os.path.join(GEN_DIR, "PropsGenSizes.v"), extra_q=gq)
-            obligations += max(ps["obligations"], 2); discharged += ps["discharged"]; theorems += ps["theorems"]; axioms.update(ps["axioms"])
+            obligations += max(ps["obligations"], 3); discharged += ps["discharged"]; theorems += ps["theorems"]; axioms.update(ps["axioms"])
             if not ps["ok"]:
                 proof_broken = (proof_broken or "") + "\nPropsGenSizes.v (c33_sizes_prime / c33_table_all_prime) does not check against the regenerated Gen.v: " + ps["log"][-2500:]
             pc = vlib.coq_props(ctx, props_file=os.path.join(GEN_DIR, "PropsGenConfig.v"), extra_q=gq)
@@ -188,7 +190,7 @@ def run(ctx):
             if not pc["ok"]:
                 proof_broken = (proof_broken or "") + "\nPropsGenConfig.v (c33_configured_tables_ok) does not check against the regenerated Gen.v: " + pc["log"][-2500:]
             pb = vlib.coq_props(ctx, props_file=os.path.join(GEN_DIR, "PropsGenBO.v"), extra_q=gq)
-            obligations += 1
+            obligations += 2
             if pb["ok"]:
                 discharged += pb["discharged"]; theorems += pb["theorems"]; axioms.update(pb["axioms"])
             else:
